@@ -98,6 +98,7 @@
 #include <bxdecay0/Po214.h>
 #include <bxdecay0/Po214low.h>
 #include <bxdecay0/Po218.h>
+#include <bxdecay0/Pt192low.h>
 #include <bxdecay0/Ra222.h>
 #include <bxdecay0/Ra222low.h>
 #include <bxdecay0/Ra226.h>
@@ -2355,6 +2356,9 @@ namespace bxdecay0 {
       }
       if (name_starts_with(chnuclide_, "Os184")) {
         W184low(prng_, event_, bb_params_.levelE);
+      }
+      if (name_starts_with(chnuclide_, "Os192")) {
+        Pt192low(prng_, event_, bb_params_.levelE);
       }
       if (name_starts_with(chnuclide_, "Pt190")) {
         Os190low(prng_, event_, bb_params_.levelE);
